@@ -34,6 +34,10 @@ func (valdec ptrDecoder) Decode(dec *Decoder, p interface{}, tag byte) {
 		if *ptr != nil {
 			*ptr = nil
 		}
+	case TagRef:
+		// resolve the reference for the pointer itself, so that a reference to an object
+		// that is still being decoded (a cycle) shares the object instead of copying it
+		dec.ReadReference(p)
 	default:
 		if *ptr == nil {
 			*ptr = valdec.et.UnsafeNew()
